@@ -19,6 +19,7 @@ import (
 	"regexp"
 	"sort"
 	"strings"
+	"sync"
 
 	"github.com/markkurossi/mpc"
 	"github.com/markkurossi/mpc/circuit"
@@ -805,28 +806,51 @@ func c09Main(args []string) error {
 		defer out.close()
 		idx := 0
 		nviol := 0
+		// the generated programs are independent of each other: eight at a time (every compilation has its own Params)
+		var mcs []*mpCase
 		err = readND(args[1], func(raw json.RawMessage) error {
-			var mc mpCase
-			if err := json.Unmarshal(raw, &mc); err != nil {
+			mc := new(mpCase)
+			if err := json.Unmarshal(raw, mc); err != nil {
 				return err
 			}
-			if nviol >= 6 {
-				return nil
-			}
-			res := &Result{Case: idx, Nontrivial: len(mc.Stmts) >= 3}
-			c09Program(res, renderMpcl(&mc), mc.Tests, mc.Rt.width())
-			if len(res.Viol) > 0 {
-				nviol++
-			}
-			if idx < 2 {
-				res.Sample = renderMpcl(&mc)
-			}
-			idx++
-			out.put(res)
+			mcs = append(mcs, mc)
 			return nil
 		})
 		if err != nil {
 			return err
+		}
+		par := 8
+		if thorough() {
+			par = 14
+		}
+		for lo := 0; lo < len(mcs) && nviol < 6; lo += par {
+			hi := lo + par
+			if hi > len(mcs) {
+				hi = len(mcs)
+			}
+			results := make([]*Result, hi-lo)
+			var wg sync.WaitGroup
+			for k := lo; k < hi; k++ {
+				wg.Add(1)
+				go func(k int) {
+					defer wg.Done()
+					mc := mcs[k]
+					res := &Result{Case: k, Nontrivial: len(mc.Stmts) >= 3}
+					c09Program(res, renderMpcl(mc), mc.Tests, mc.Rt.width())
+					if k < 2 {
+						res.Sample = renderMpcl(mc)
+					}
+					results[k-lo] = res
+				}(k)
+			}
+			wg.Wait()
+			for _, res := range results {
+				if len(res.Viol) > 0 {
+					nviol++
+				}
+				out.put(res)
+			}
+			idx = hi
 		}
 		// hand-written and generated alias-heavy programs (no prediction: agreement between configurations)
 		for i, t := range pgTemplates {
